@@ -6,9 +6,13 @@ import (
 	"fmt"
 	"google.golang.org/genproto/googleapis/api/annotations"
 	"google.golang.org/grpc"
+	"google.golang.org/protobuf/proto"
+	"google.golang.org/protobuf/reflect/protodesc"
+	"google.golang.org/protobuf/reflect/protoregistry"
 	"google.golang.org/protobuf/types/descriptorpb"
 	"math/rand"
 	"strings"
+	"sync"
 	"time"
 	"verif/internal/backend"
 
@@ -176,6 +180,97 @@ func schemaSkew(r *mon.Run) {
 			r.Distinct(fmt.Sprintf("schema-skew:%s:rev%d", rl.name, rev))
 		}
 	}
+}
+
+var importSkewOnce sync.Once
+
+// importSkew: the gateway process links vf/skewdep.proto with
+// Scope{zone}; the back-end was built against a newer vf/skewdep.proto with
+// Scope{zone, region} and binds a path variable to scope.region. RegisterConn
+// must take the back-end's own revision (delivered by reflection).
+func importSkew(r *mon.Run) {
+	str := func(s string) *string { return &s }
+	dep := func(withRegion bool) *descriptorpb.FileDescriptorProto {
+		m := &descriptorpb.DescriptorProto{Name: str("Scope"), Field: []*descriptorpb.FieldDescriptorProto{vschema.StrField("zone", 1)}}
+		if withRegion {
+			m.Field = append(m.Field, vschema.StrField("region", 2))
+		}
+		return &descriptorpb.FileDescriptorProto{Name: str("vf/skewdep.proto"), Package: str("vf.skd"), Syntax: str("proto3"), MessageType: []*descriptorpb.DescriptorProto{m}}
+	}
+	var regErr error
+	importSkewOnce.Do(func() {
+		fdA, err := protodesc.NewFile(dep(false), protoregistry.GlobalFiles)
+		if err != nil {
+			regErr = err
+			return
+		}
+		regErr = protoregistry.GlobalFiles.RegisterFile(fdA)
+	})
+	if regErr != nil {
+		r.Inconclusive("import skew: cannot link the gateway's revision: " + regErr.Error())
+		return
+	}
+	fdB, err := protodesc.NewFile(dep(true), protoregistry.GlobalFiles)
+	if err != nil {
+		r.Inconclusive("import skew: " + err.Error())
+		return
+	}
+	files := new(protoregistry.Files)
+	files.RegisterFile(fdB)
+	files.RegisterFile(vschema.TypesFile())
+	for _, p := range []string{"google/api/annotations.proto", "google/api/http.proto", "google/protobuf/descriptor.proto"} {
+		if fd, err := protoregistry.GlobalFiles.FindFileByPath(p); err == nil {
+			files.RegisterFile(fd)
+		}
+	}
+	opts := &descriptorpb.MethodOptions{}
+	proto.SetExtension(opts, annotations.E_Http, &annotations.HttpRule{Pattern: &annotations.HttpRule_Get{Get: "/skd/{scope.region}/things/{id}"}})
+	svc := &descriptorpb.FileDescriptorProto{
+		Name: str("vf/skewsvc.proto"), Package: str("vf.skd"), Syntax: str("proto3"),
+		Dependency:  []string{"vf/skewdep.proto", "google/api/annotations.proto", string(vschema.TypesFile().Path())},
+		MessageType: []*descriptorpb.DescriptorProto{{Name: str("ThingReq"), Field: []*descriptorpb.FieldDescriptorProto{vschema.MsgField("scope", 1, "vf.skd.Scope"), vschema.StrField("id", 2)}}},
+		Service: []*descriptorpb.ServiceDescriptorProto{{Name: str("Things"), Method: []*descriptorpb.MethodDescriptorProto{{
+			Name: str("Get"), InputType: str(".vf.skd.ThingReq"), OutputType: str(".vf.Rsp"), Options: opts}}}},
+	}
+	fdS, err := protodesc.NewFile(svc, files)
+	if err != nil {
+		r.Inconclusive("import skew: " + err.Error())
+		return
+	}
+	rec := &Built{}
+	be, err := backend.Start("skd", true, backend.Svc{SD: fdS.Services().Get(0), Impl: rec})
+	if err != nil {
+		r.Inconclusive("import skew back-end: " + err.Error())
+		return
+	}
+	defer be.Close()
+	be.SetFiles(fdS, fdB)
+	mux, err := larking.NewMux()
+	if err != nil {
+		r.Inconclusive("import skew mux: " + err.Error())
+		return
+	}
+	rec.Mux = mux
+	r.Eval(1)
+	ctx, cancel := context.WithTimeout(context.Background(), 20*time.Second)
+	var rerr error
+	pi := mon.Catch(func() { rerr = mux.RegisterConn(ctx, be.CC) })
+	cancel()
+	c := map[string]any{"case": "back-end imports vf/skewdep.proto in a newer revision than the gateway links"}
+	if pi != nil {
+		r.Violate(pi.Key(), "RegisterConn panicked: "+pi.Value, c)
+		return
+	}
+	if rerr != nil {
+		r.Violate("rejected-valid:backend-import-shadowed-by-gateway-file", "the back-end's own revision of the imported file has the field the rule names, yet RegisterConn failed: "+rerr.Error(), c)
+		return
+	}
+	o := rec.Do("GET", "/skd/eu-west/things/42", "", nil)
+	if o.Status != 200 || o.Method != "/vf.skd.Things/Get" || !strings.Contains(o.MsgJSON, "eu-west") {
+		r.Violate("unroutable-after-accept:backend-import-revision", fmt.Sprintf("GET /skd/eu-west/things/42 after the accepted registration: [%s]", o), c)
+		return
+	}
+	r.Distinct("import-skew:accepted-and-routed")
 }
 
 func via2(c *Cand) string {
@@ -777,6 +872,9 @@ func RunC16(r *mon.Run) {
 		}
 		execCand(r, &Cand{Rule: bad, TgtRule: &tr, Base: base, Origin: "late-failure"}, rng)
 	}
+	// (h) a back-end whose service file imports a file the gateway links in
+	// another revision: the back-end's descriptors are the back-end's
+	importSkew(r)
 	// (g) two schemas for one message name in the process: a rule is judged
 	// against the revision it is registered with, whatever other muxes saw
 	schemaSkew(r)
